@@ -1,1 +1,5 @@
+import Props.C04
 import Props.C13
+import Props.C15
+import Props.C16
+import Props.C17
